@@ -196,6 +196,7 @@ def run_scenario(sc):
     logger = uros.Logger(core) if sc["logger"] else None
     n_before_logger = [len(log["pubs"][ti]) for ti in range(nt)]  # the logger only sees what is published after it exists
     core.init_params()
+    default_logger_dt = float(core.get_param("logger/dt")) if logger is not None else None  # the declared default period
     if logger is not None and sc["logger_dt"] is not None:
         core.set_param("logger/dt", sc["logger_dt"])
 
@@ -269,7 +270,7 @@ def run_scenario(sc):
         arr = logger.get_log_as_array()
         times = [float(t) for t in arr["time"]]
         # expected row times: start at 0, then + current period (updated synchronously by the params broadcast)
-        dt = sc["logger_dt"] if sc["logger_dt"] is not None else 1.0 / 200
+        dt = sc["logger_dt"] if sc["logger_dt"] is not None else default_logger_dt
         changes = sorted([(e[1], e[2]) for e in log["events"] if e[0] == "logger_dt"])
         if times[:1] != [0.0]:
             raise Violation("logger: first row at %s, expected 0" % times[:1], scenario=sc)
